@@ -18,6 +18,22 @@ import (
 type c06Range struct {
 	sy, sm, sd int // start date (possibly partial)
 	ey, em, ed int // end date (possibly partial)
+	// con: 0 none, 1 about, 2 before, 3 after. The constraint says how sure
+	// the author is; the days of the period are the same.
+	con int
+}
+
+var c06Constraints = []gedcom.DateConstraint{gedcom.DateConstraintExact, gedcom.DateConstraintAbout, gedcom.DateConstraintBefore, gedcom.DateConstraintAfter}
+
+func (r c06Range) sameDays(o c06Range) bool {
+	a, b := r.interval()
+	c, d := o.interval()
+	return a == c && b == d
+}
+
+func (r c06Range) with(con int) c06Range {
+	r.con = con % 4
+	return r
 }
 
 func (r c06Range) interval() (int64, int64) {
@@ -32,8 +48,8 @@ func (r c06Range) interval() (int64, int64) {
 func (r c06Range) build() gedcom.DateRange {
 	flag := (r.sy+r.sm+r.sd+r.ey+r.em+r.ed)%2 == 0
 	return gedcom.NewDateRange(
-		gedcom.Date{Day: r.sd, Month: time.Month(r.sm), Year: r.sy, IsEndOfRange: !flag && r.sd%3 == 0},
-		gedcom.Date{Day: r.ed, Month: time.Month(r.em), Year: r.ey, IsEndOfRange: flag})
+		gedcom.Date{Day: r.sd, Month: time.Month(r.sm), Year: r.sy, IsEndOfRange: !flag && r.sd%3 == 0, Constraint: c06Constraints[r.con]},
+		gedcom.Date{Day: r.ed, Month: time.Month(r.em), Year: r.ey, IsEndOfRange: flag, Constraint: c06Constraints[r.con]})
 }
 
 var c06Mon = []string{"", "Jan", "Feb", "Mar", "Apr", "May", "Jun", "Jul", "Aug", "Sep", "Oct", "Nov", "Dec"}
@@ -50,7 +66,7 @@ func c06DateStr(y, m, d int) string {
 
 func (r c06Range) String() string {
 	if r.sy == r.ey && r.sm == r.em && r.sd == r.ed {
-		return c06DateStr(r.sy, r.sm, r.sd)
+		return []string{"", "Abt. ", "Bef. ", "Aft. "}[r.con] + c06DateStr(r.sy, r.sm, r.sd)
 	}
 	return "Bet. " + c06DateStr(r.sy, r.sm, r.sd) + " and " + c06DateStr(r.ey, r.em, r.ed)
 }
@@ -218,7 +234,7 @@ func c06Window() []c06Range {
 		for j := i; j < 22; j++ {
 			y1, m1, d1 := ref.Civil(start + i)
 			y2, m2, d2 := ref.Civil(start + j)
-			rs = append(rs, c06Range{y1, m1, d1, y2, m2, d2})
+			rs = append(rs, c06Range{y1, m1, d1, y2, m2, d2, 0})
 		}
 	}
 	return rs
@@ -240,7 +256,7 @@ func c06Gran() []c06Range {
 	}
 	var rs []c06Range
 	for _, x := range ds {
-		rs = append(rs, c06Range{x.y, x.m, x.d, x.y, x.m, x.d})
+		rs = append(rs, c06Range{x.y, x.m, x.d, x.y, x.m, x.d, 0})
 	}
 	// ranges between partial dates (subset: start and end in adjacent positions)
 	for i := 0; i < len(ds); i++ {
@@ -249,7 +265,7 @@ func c06Gran() []c06Range {
 			if j >= len(ds) {
 				continue
 			}
-			r := c06Range{ds[i].y, ds[i].m, ds[i].d, ds[j].y, ds[j].m, ds[j].d}
+			r := c06Range{ds[i].y, ds[i].m, ds[i].d, ds[j].y, ds[j].m, ds[j].d, 0}
 			if a, b := r.interval(); a <= b {
 				rs = append(rs, r)
 			}
@@ -305,6 +321,12 @@ func c06Run(c *fw.Ctx, i int) {
 				c06Check(c, R, A, true)
 			}
 		}
+		// and with constraint words on one or both sides
+		for j, A := range win {
+			if (i+j)%3 == 1 || R.sameDays(A) {
+				c06Check(c, R.with(i+j/4), A.with(j), j%2 == 0)
+			}
+		}
 		if c.WantSample("window") {
 			c.Sample("window", map[string]string{"receiver": R.String(), "vs": "all 253 ranges in 20 Dec 1999..10 Jan 2000", "example": c06Name(R.build().Compare(win[100].build())) + " vs " + win[100].String()})
 		}
@@ -316,6 +338,9 @@ func c06Run(c *fw.Ctx, i int) {
 		R := gr[i]
 		for j, A := range gr {
 			c06Check(c, R, A, (i+j)%2 == 0)
+			if (i+j)%3 == 0 || R.sameDays(A) {
+				c06Check(c, R.with(i+j/4), A.with(j), j%2 == 0)
+			}
 		}
 		if c.WantSample("granularity") {
 			c.Sample("granularity", map[string]string{"receiver": R.String(), "vs": fmt.Sprintf("all %d mixed-granularity ranges", len(gr))})
@@ -331,7 +356,7 @@ func c06Run(c *fw.Ctx, i int) {
 		}
 		y1, m1, d1 := ref.Civil(x)
 		y2, m2, d2 := ref.Civil(y)
-		return c06Range{y1, m1, d1, y2, m2, d2}
+		return c06Range{y1, m1, d1, y2, m2, d2, 0}
 	}
 	for k := 0; k < 1000; k++ {
 		pts := []int64{randDay(), 0, 0, 0}
@@ -352,6 +377,9 @@ func c06Run(c *fw.Ctx, i int) {
 			}
 		}
 		R, A := mk(pts[0], pts[1]), mk(pts[2], pts[3])
+		if r.Bool() {
+			R, A = R.with(r.Intn(4)), A.with(r.Intn(4))
+		}
 		c06Check(c, R, A, k%4 == 0)
 		if k == 0 && c.WantSample("random") {
 			c.Sample("random", map[string]string{"receiver": R.String(), "argument": A.String(), "result": c06Name(R.build().Compare(A.build()))})
